@@ -248,6 +248,36 @@ def check(ctx):
     ctx.rule("C01.R8", "object nodes: child applied / MISSING / UNEXPECTED / TypedDict copy happen under exactly the documented conditions (truth tables of the reach conditions)", floor=7)
     object_protocol_rule(ctx, "C01.R8", ["applied", "missing", "unexpected", "copy", "attribution"])
 
+    # ---------------- R9: booleans are not numbers in value lookups
+    ctx.rule("C01.R9", "value tables compared with the datum by hash / equality keep booleans apart from 0 / 1 (True == 1 for Python, not for JSON): writer and reader of LiteralMethod.value_map agree on a (is-bool, value) key; to_hashable tags booleans", floor=4)
+    lm = model.func(f"{DESER_MOD}.LiteralMethod.deserialize")
+    looks = [n for n in ast.walk(lm.node) if isinstance(n, ast.Subscript) and norm(n.value) == "self.value_map"]
+    ctx.check(len(looks) >= 2, "C01.R9", f"{lm.qualname}:lookups", lm.node.body[0], "LiteralMethod no longer looks the datum (and the coerced datum) up in value_map", lm, lm.node, detail=">= 2 lookups")
+    for n in looks:
+        k = n.slice
+        ok = isinstance(k, ast.Tuple) and len(k.elts) == 2 and isinstance(k.elts[0], ast.Call) and dotted(k.elts[0].func) == "isinstance" and len(k.elts[0].args) == 2 \
+            and norm(k.elts[0].args[1]) == "bool" and norm(k.elts[0].args[0]) == norm(k.elts[1])
+        ctx.check(ok, "C01.R9", f"{lm.qualname}:key:{norm(k)[:30]}", n, f"`{short(n, 60)}`: the lookup key does not separate booleans from numbers: deserialize(Literal[1], True) returns 1 and an Enum of value 1 accepts true (the JSON schema says const: 1)", lm, n, detail="self.value_map[isinstance(x, bool), x]")
+    lit = model.func("apischema.deserialization.DeserializationMethodVisitor.literal.<locals>.factory")
+    built = [n for n in ast.walk(lit.node) if isinstance(n, ast.Call) and (dotted(n.func) or "").endswith("LiteralMethod")]
+    ok = False
+    if built and built[0].args:
+        a0 = built[0].args[0]
+        if isinstance(a0, ast.Name):
+            a0 = next((x.value for x in ast.walk(lit.node) if isinstance(x, ast.Assign) and norm(x.targets[0]) == a0.id), a0)
+        if isinstance(a0, ast.DictComp) and isinstance(a0.key, ast.Tuple) and len(a0.key.elts) == 2:
+            e0, e1 = a0.key.elts
+            ok = isinstance(e0, ast.Call) and dotted(e0.func) == "isinstance" and norm(e0.args[1]) == "bool" and norm(e0.args[0]) == norm(e1)
+    ctx.check(ok, "C01.R9", f"{lit.qualname}:table", built[0] if built else lit.node.body[0], "the literal value table is not keyed by (is-bool, value): its reader looks values up under such keys (or True and 1 collide in the table)", lit, lit.node, detail="{(isinstance(key, bool), key): value}")
+    th = model.func(f"{DESER_MOD}.to_hashable")
+    from ..pathcond import parents_of as _po, path_condition as _pcond
+    pm_t = _po(th.node)
+    rets = [r for r in ast.walk(th.node) if isinstance(r, ast.Return)]
+    tagged = [r for r in rets if "isinstance(data, bool)" in norm(_pcond(th.node, r, pm_t)) and not norm(_pcond(th.node, r, pm_t)).count("not isinstance(data, bool)") and isinstance(r.value, ast.Tuple)]
+    plain = [r for r in rets if norm(r.value) == "data"]
+    ok = bool(tagged) and all("not isinstance(data, bool)" in norm(_pcond(th.node, r, pm_t)) for r in plain)
+    ctx.check(ok, "C01.R9", f"{th.qualname}:bool", th.node.body[0], "to_hashable returns booleans as is: [1, true] counts as duplicate items for uniqueItems although the JSON values are distinct", th, th.node, detail="booleans tagged before the fall-through")
+
 
 def mutants(mb):
     M = "apischema/deserialization/methods.py"
@@ -295,6 +325,9 @@ def mutants(mb):
     mb.add_text("flattened-from-remain", M, "                    for alias in flattened_field.aliases\n                    if alias in data\n", "                    for alias in flattened_field.aliases\n                    if alias in remain\n", "C01.R8", "attribution:flattened")
     mb.add_text("pattern-keys-not-consumed", M, "                remain.difference_update(matched)\n", "", "C01.R8", "attribution:pattern:consumed")
     mb.add_text("pattern-from-data", M, "                    for key in remain\n                    if isinstance(key, str) and pattern_field.pattern.match(key)", "                    for key in data\n                    if isinstance(key, str) and pattern_field.pattern.match(key)", "C01.R8", "attribution:pattern")
+    mb.add_text("literal-lookup-raw-key", M, "            return self.value_map[isinstance(data, bool), data]", "            return self.value_map[False, data]", "C01.R9", "LiteralMethod")
+    mb.add_text("literal-table-raw-key", "apischema/deserialization/__init__.py", "                {(isinstance(key, bool), key): value for key, value in zip(keys, values)},", "                {(False, key): value for key, value in zip(keys, values)},", "C01.R9", "table")
+    mb.add_text("to-hashable-bool-untagged", M, "    elif isinstance(data, bool):  # True == 1 for Python, they are distinct for JSON\n        return bool, data\n", "", "C01.R9", "to_hashable")
     mb.add_text("neg-guard-clause-form", M, "                    for key in remain:\n                        if key != discriminator:\n                            field_errors = set_child_error(\n                                field_errors, key, ValidationError(self.unexpected)\n                            )", "                    for key in remain:\n                        if key == discriminator:\n                            continue\n                        field_errors = set_child_error(\n                            field_errors, key, ValidationError(self.unexpected)\n                        )", negative=True)
     mb.add_text("neg-else-branch-form", M, "        elif len(data) != fields_count:\n            if not self.additional_properties:", "        elif not (len(data) == fields_count):\n            if not self.additional_properties:", negative=True)
     mb.add_text("neg-operand-order", M, "        return data >= self.minimum", "        return self.minimum <= data", negative=True)
